@@ -199,9 +199,9 @@ def corpus():
 def generate(rng, tier):
     big = tier == 'thorough'
     out = []
-    for _ in range(12000 if big else 500):
+    for _ in range(15000 if big else 1500):
         out.append(ratio_case(rng, rng.randrange(2, 7), rng.randrange(12, 41), ('ratio', 'mixed')))
-    for _ in range(2000 if big else 60):   # adjacent doubles only: a run of consecutive bit patterns
+    for _ in range(3000 if big else 200):   # adjacent doubles only: a run of consecutive bit patterns
         b0 = max(1, rand_ratio(rng) & (2 ** 63 - 1))
         if (b0 >> 52) >= 0x7fe:
             b0 = 0x3fe0000000000000
@@ -212,7 +212,7 @@ def generate(rng, tier):
             for d in (-2049, -1, 0, 1, 2049):
                 ids.append(id_with_prefix(min(max(t + d, 0), U64 - 1), rng))
         out.append(Case('sm ratio ' + ' '.join(b16(b) for b in rs) + ' ids ' + ' '.join(i.hex() for i in ids), H, ('ratio', 'adjacent-run')))
-    for k in range(0, 1075, 1 if big else 9):   # every power of two with both neighbours
+    for k in range(0, 1075, 1 if big else 5):   # every power of two with both neighbours
         b = bits(math.ldexp(1.0, -k))
         rs = [x for x in (b - 1, b, b + 1) if x >= 0]
         t = approx_threshold(dbl(b))
@@ -220,7 +220,7 @@ def generate(rng, tier):
         out.append(Case('sm ratio ' + ' '.join(b16(x) for x in rs) + ' ids ' + ' '.join(i.hex() for i in ids), H, ('ratio', 'pow2-neighbours')))
     for f in range(256):   # all flag bytes under parent-based
         out.append(sample_case(rng, ('sample', 'all-flags'), flags=f, depth=rng.choice([1, 1, 2])))
-    for _ in range(40000 if big else 1500):
+    for _ in range(40000 if big else 4000):
         out.append(sample_case(rng, ('sample', 'mixed')))
     return out
 
